@@ -29,6 +29,8 @@ func pickAddl(r *mon.Rand) []byte {
 		return nil
 	case 4:
 		return []byte{} // empty but not nil: still "no additional input"
+	case 5:
+		return r.Bytes(1 + r.Intn(300))
 	}
 	return r.Bytes(addlLens[r.Intn(len(addlLens))])
 }
